@@ -493,9 +493,16 @@ class EvolvableDistribution(EvolvableWrapper):
         :return: Cloned distribution.
         :rtype: EvolvableDistribution
         """
-        return EvolvableDistribution(
+        clone = EvolvableDistribution(
             action_space=self.action_space,
             network=self.wrapped.clone(),
             action_std_init=self.action_std_init,
+            squash_output=self.squash_output,
             device=self.device,
         )
+
+        # Carry over the learned standard deviation of continuous action distributions
+        if getattr(self, "log_std", None) is not None:
+            clone.log_std.data.copy_(self.log_std.data)
+
+        return clone
